@@ -191,7 +191,12 @@ func (t *ImmutableTree) Get(key []byte) ([]byte, error) {
 		return nil, nil
 	}
 
-	if !t.skipFastStorageUpgrade {
+	// The fast index (and its cache) is brought up to date by a commit before the
+	// new version is published as the latest one. A tree of a version that is
+	// not published yet - handed out because its root entry is already stored,
+	// which a flush of the shared batch can bring about before the commit has
+	// updated the cache - must not trust it: its own nodes are all stored.
+	if !t.skipFastStorageUpgrade && t.version <= t.ndb.getCachedLatestVersion() {
 		// attempt to get a FastNode directly from db/cache.
 		// if call fails, fall back to the original IAVL logic in place.
 		fastNode, err := t.ndb.GetFastNode(key)
